@@ -78,4 +78,7 @@ def realign_worker_killed_in_delivery(v):
     d = w.get("diag") or {}
     return (v["kind"] == "hang_proven_deadlock" and d.get("proven_deadlock") is True
             and d.get("mechanism") == "partial_message_in_pipe"
-            and w.get("fault_kind") in ("SIGKILL", "SIGSEGV", "SIGTERM", "exit3"))
+            and w.get("fault_kind") in ("SIGKILL", "SIGSEGV", "SIGTERM", "exit3")
+            # a single result record larger than PIPE_BUF: only then is a message of the unchanged
+            # protocol (one record per message) written non-atomically and can be cut short
+            and int(w.get("record_bytes") or 0) > 4096)
